@@ -6,7 +6,7 @@ set -u
 W=$1; OUT=$2; mkdir -p $OUT
 cd $W || exit 2
 export CARGO_NET_OFFLINE=true
-git diff -- src > $OUT/patch.diff
+git add -N src 2>/dev/null; git diff HEAD -- src > $OUT/patch.diff
 cp tests/seed_demo.rs $OUT/seed_demo.rs 2>/dev/null
 echo "== suite with change (demo moved aside)" | tee $OUT/verify.log
 mv tests/seed_demo.rs /tmp/seed_demo_aside.rs
